@@ -2,6 +2,7 @@ import PprofVerif.Lemmas.CodecTotalPost
 import PprofVerif.Lemmas.LegacyCPUTotal
 import PprofVerif.Lemmas.LegacyCPUValues
 import PprofVerif.Model.Parse
+import PprofVerif.Lemmas.IdTables
 /-!
 # C02 — Parsing is total: an error or a valid profile for any bytes
 
@@ -58,6 +59,25 @@ theorem unmarshal_never_panics : ∀ (b : Bytes) (s : String), Codec.unmarshal b
 range check of `getString`, every id lookup through the dense/sparse tables. -/
 theorem postDecode_never_panics : ∀ (x : ProfileX) (s : String), Codec.postDecode x ≠ .panic s :=
   postDecode_ne_panic
+
+/-- The dense-or-sparse id tables `postDecode` builds for mappings, functions and locations
+(`make([]*T, len+1)` plus a map), modelled with checked index expressions: building them and
+resolving any reference never indexes out of range, and a reference resolves (non-nil pointer)
+exactly when its id occurs in the table — which is how `Codec.postDecode` states it
+(`List.contains`) — to an entity that carries this id. -/
+theorem postDecode_id_tables_total (ids : List Nat) :
+    ∃ t, IdTables.build ids = .ok t ∧ ∀ id, ∃ r, IdTables.lookup t id = .ok r ∧
+      (r.isSome = true ↔ ids.contains id = true) ∧ (∀ j, r = some j → ids[j]? = some id) := by
+  obtain ⟨t, ht, h⟩ := IdTables.build_lookup ids
+  refine ⟨t, ht, fun id => ?_⟩
+  obtain ⟨r, hr, h1, h2⟩ := h id
+  exact ⟨r, hr, by rw [h1]; simp, h2⟩
+
+-- ids at the dense/sparse boundary (len, len+1), duplicates and a huge id
+example : (match IdTables.build [3, 4, 1, 3, 18446744073709551615] with
+    | .ok t => (IdTables.lookup t 3, IdTables.lookup t 5, IdTables.lookup t 6, IdTables.lookup t 18446744073709551615, IdTables.lookup t 0)
+        == (.ok (some 3), .ok none, .ok none, .ok (some 4), .ok none)
+    | _ => false) = true := by decide
 
 /-- `ParseUncompressed` never panics, for any bytes. -/
 theorem parseUncompressed_never_panics : ∀ (b : Bytes) (s : String), Codec.parseUncompressed b ≠ .panic s :=
